@@ -161,4 +161,4 @@ M("c19-bins-call-wins", "C19", "plot/parser.py", "    if out.bins is None:\n    
 M("c17-unfix-vector-inplace", "C17", "core/vector.py", "        for c, xyz in lhs._xyz.items():\n            getattr(xyz, op)(getattr(rhs, c))\n        return lhs\n", "        pass\n", "Vector in-place operators return a new Vector again (stale unit on other references after a second update)")
 M("c17-unfix-vector-alias-copy", "C17", "core/vector.py", "        if _shares_memory(lhs, rhs):\n            rhs = rhs.copy()", "        if False and _shares_memory(lhs, rhs):\n            rhs = rhs.copy()", "operand aliasing a component is not copied before the component-wise update")
 M("c03-unfix-depth-step", "C03", "plot/map.py", "        zspacing = abs(zmax - zmin) or 1.0", "        zspacing = zmax - zmin", "negative depth step for automatic windows (the original defect; needs the origin near the domain edge)")
-M("c05-degenerate-no-widening", "C05", "plot/histogram2d.py", "            xmin = xmin - 0.05 * abs(xmin)\n            xmax = xmax + 0.05 * abs(xmax)", "            xmin = xmin - 0.05 * abs(xmin)\n            xmax = xmax + 0.0 * abs(xmax)", "all x equal: the range is widened on the low side only, the points sit on the excluded upper limit")
+M("c05-degenerate-no-widening", "C05", "plot/histogram2d.py", "    if xmin == xmax:\n        if xmin == 0.0:", "    if xmin == xmax and xmin == 0.0:\n        if xmin == 0.0:", "all x equal and non-zero: the zero-width automatic range is not widened")
